@@ -49,9 +49,10 @@ impl Api {
     fn drain_cb(&self) -> String {
         let mut l = self.log.lock().unwrap();
         if l.is_empty() { return String::new(); }
-        // canonical: stable sort by listener name (per-listener order preserved)
+        // canonical: stable sort by listener name (per-listener order preserved); API_RAW_CB=1 keeps the order in which the
+        // library called the listeners (C19: it must not depend on what another context does)
         let mut v: Vec<(String, i64)> = l.drain(..).collect();
-        v.sort_by(|a, b| a.0.cmp(&b.0));
+        if std::env::var("API_RAW_CB").is_err() { v.sort_by(|a, b| a.0.cmp(&b.0)); }
         let parts: Vec<String> = v.iter().map(|(n, x)| format!("{n}={x}")).collect();
         format!(" | cb {}", parts.join(" "))
     }
@@ -142,6 +143,10 @@ impl Api {
             ["value", x, c] => { fresh!(x); let c = need!(self.c(c)); self.h.insert(x.to_string(), H::S(c.value())); ok() }
             ["mapc", x, c, k] => { fresh!(x); let (c, k) = (need!(self.c(c)), need!(num(k))); self.h.insert(x.to_string(), H::C(c.map(move |v: &i64| f1(k, *v)))); ok() }
             ["lift2", x, a, b, op] => { fresh!(x); let (a, b, op) = (need!(self.c(a)), need!(self.c(b)), need!(num(op))); self.h.insert(x.to_string(), H::C(a.lift2(&b, move |p: &i64, q: &i64| f2(op, *p, *q)))); ok() }
+            ["lift2d", x, a, b, c, op] => { fresh!(x); let (a, b, c, op) = (need!(self.c(a)), need!(self.c(b)), need!(self.c(c)), need!(num(op)));
+                // a lift whose function captures a third cell and declares it (lambda2 with deps): the collector must see it once
+                let dep = c.to_dep();
+                self.h.insert(x.to_string(), H::C(a.lift2(&b, lambda2(move |p: &i64, q: &i64| { c.impl_.nop(); f2(op, *p, *q) }, vec![dep])))); ok() }
             ["liftn", x, cs @ ..] => { fresh!(x); let mut cv = vec![]; for c in cs { cv.push(need!(self.c(c))); }
                 let r = match cv.len() {
                     3 => cv[0].lift3(&cv[1], &cv[2], |a: &i64, b: &i64, c: &i64| fn_(&[*a, *b, *c])),
